@@ -71,16 +71,33 @@ def project(ci, objs, names):
     return kids, par
 
 
+OTHER_KEY = "NoSuchName"
+
+
+def real_key(k, spec, tok):
+    """The model's table key in real text: the variant's id, or (add(..., variant_id=uid)) its dashed UID."""
+    if k == spec["id"]:
+        return real_id(spec, tok)
+    if k == "-".join(spec["uid"]):
+        return real_uid(spec, tok)
+    return OTHER_KEY
+
+
 def model_kids(case, tok):
     pool = case["pool"]
     out = {}
     for c, d in case["kids"].items():
-        out[c] = {} if isinstance(d, list) else {real_id(pool[o], tok): o for _, o in d.items()}
+        out[c] = {} if isinstance(d, list) else {real_key(k, pool[o], tok): o for k, o in d.items()}
     return out
 
 
 def _norm_newc(d, pool, tok):
-    return {} if isinstance(d, list) else {real_id(pool[o], tok): o for _, o in d.items()}
+    return {} if isinstance(d, list) else {real_key(k, pool[o], tok): o for k, o in d.items()}
+
+
+def _by_id(kids, objs):
+    """The tables with every entry under its variant's id: how a loader files them, whatever key the builder chose."""
+    return {c: {(objs[o].id if o in objs else k): o for k, o in d.items()} for c, d in kids.items()}
 
 
 def build(case, tok, arch, upto=None):
@@ -91,17 +108,24 @@ def build(case, tok, arch, upto=None):
     fails = []
     hist = case["hist"] if upto is None else case["hist"][:upto]
     for i, ev in enumerate(hist):
-        out = do_add(ci, objs, ev["c"], ev["o"])
+        out = do_add(ci, objs, ev["c"], ev["o"], ev.get("kf", "id"))
         if out != ev["out"]:
-            fails.append("history step %d add(%s,%s): model %s, code %s" % (i, ev["c"], ev["o"], ev["out"], out))
+            fails.append("history step %d add(%s,%s%s): model %s, code %s" % (i, ev["c"], ev["o"], _kf(ev), ev["out"], out))
             break
     return ci, objs, names, fails
 
 
-def do_add(ci, objs, c, o):
+def _kf(ev):
+    return "" if ev.get("kf", "id") == "id" else ", variant_id=<%s>" % ev["kf"]
+
+
+def do_add(ci, objs, c, o, kf="id"):
     cont = ci.variants if c == "ROOT" else objs[c]
     try:
-        cont.add(objs[o])
+        if kf == "id":
+            cont.add(objs[o])
+        else:
+            cont.add(objs[o], variant_id=objs[o].uid if kf == "uid" else OTHER_KEY)
         return "ok"
     except ValueError:
         return "ValueError"
@@ -246,9 +270,9 @@ def eval_state(case):
             return ["re-read forest %s: ComposeInfo[%r] raised %s" % (_short(case["hist"]), objs[n].uid, exc)]
     names2 = {id(o): n for n, o in objs2.items()}
     kids2, par2 = project(ci2, objs2, names2)
-    kf = {c: d for c, d in kids.items() if c == "ROOT" or c in forest}
+    kf = _by_id({c: d for c, d in kids.items() if c == "ROOT" or c in forest}, objs)
     pf = {c: p for c, p in par.items() if c in forest}
-    if kids2 != kf or par2 != pf:
+    if _by_id(kids2, objs2) != kf or par2 != pf:
         return ["re-read forest differs from the written one: written kids=%s par=%s ; read kids=%s par=%s"
                 % (kf, pf, kids2, par2)]
     for n in forest:
@@ -268,12 +292,12 @@ def eval_state(case):
     accepted = [a for a in case["acts"] if a["out"] == "ok"]
     fails = []
     for a in refused:
-        out = do_add(ci, objs, a["c"], a["o"])
+        out = do_add(ci, objs, a["c"], a["o"], a.get("kf", "id"))
         k2, p2 = project(ci, objs, names)
         bad = None
         if out == "ok":
-            bad = ("add(%s,%s) after %s must be refused (model: ValueError), code accepted it"
-                   % (a["c"], a["o"], _short(case["hist"])))
+            bad = ("add(%s,%s%s) after %s must be refused (model: ValueError), code accepted it"
+                   % (a["c"], a["o"], _kf(a), _short(case["hist"])))
         elif out != "ValueError":
             bad = "add(%s,%s) after %s raised %s instead of ValueError" % (a["c"], a["o"], _short(case["hist"]), out)
         elif (k2, p2) != (kids, par):
@@ -289,7 +313,7 @@ def eval_state(case):
     for a in accepted:
         ci3, objs3, names3, f3 = build(case, tok, arch)
         prime = queries(ci3, objs3, forest, "before add(%s,%s)" % (a["c"], a["o"]), arch, True, light=a["c"])      # fills any cache
-        out = do_add(ci3, objs3, a["c"], a["o"])
+        out = do_add(ci3, objs3, a["c"], a["o"], a.get("kf", "id"))
         if out == "ok" and not prime:
             # the forest after the add: the new variant and the sub-tree it brings, if its container is in the forest
             grown = set(forest)
@@ -305,7 +329,7 @@ def eval_state(case):
             if after:
                 return after
         if out != "ok":
-            return ["add(%s,%s) after %s is valid (model: ok), code raised %s" % (a["c"], a["o"], _short(case["hist"]), out)]
+            return ["add(%s,%s%s) after %s is valid (model: ok), code raised %s" % (a["c"], a["o"], _kf(a), _short(case["hist"]), out)]
         k3, p3 = project(ci3, objs3, names3)
         ek = dict(exp_kids)
         ek[a["c"]] = _norm_newc(a["newc"], pool, tok)
@@ -323,4 +347,4 @@ def _diff(a, b):
 
 
 def _short(hist):
-    return ";".join("%s.add(%s)%s" % (e["c"], e["o"], "" if e["out"] == "ok" else "!") for e in hist) or "<empty>"
+    return ";".join("%s.add(%s%s)%s" % (e["c"], e["o"], _kf(e), "" if e["out"] == "ok" else "!") for e in hist) or "<empty>"
